@@ -26,17 +26,19 @@ renaming and hoisting) and takes timestamp and extensions from it. -/
 theorem sources_as_modelled :
     ("Data", "chain[0].Raw") ∈ Gen.mtlFields ∧ ("TBSCertificate", "defangedTBS") ∈ Gen.mtlFields ∧
     Gen.mtlKeyHashOf = "issuer.RawSubjectPublicKeyInfo" ∧ Gen.mtlTBSArgs = "cert.RawTBSCertificate, preIssuer" ∧
-    Gen.idHashOf = "cert.Data" ∧
+    Gen.idHashOf = "$ct.ASN1Cert.Data" ∧
     Gen.sctLeafSource = "$QueueLeaf.QueuedLeaf.Leaf.LeafValue" ∧ Gen.sctBuiltFrom = "&$decl(ct.MerkleTreeLeaf)" ∧
-    ("Timestamp", "leaf.TimestampedEntry.Timestamp") ∈ Gen.sctFields ∧ ("Extensions", "leaf.TimestampedEntry.Extensions") ∈ Gen.sctFields := by
+    ("Timestamp", "$*ct.MerkleTreeLeaf.TimestampedEntry.Timestamp") ∈ Gen.sctFields ∧
+    ("Extensions", "$*ct.MerkleTreeLeaf.TimestampedEntry.Extensions") ∈ Gen.sctFields := by
   decide
 
-/-- **One key.** `buildV1SCT` signs with `signer` and computes the log id from `signer.Public()`, and `GetCTLogID` is
+/-- **One key.** (`$crypto.Signer` is the canonical name of `buildV1SCT`'s signer parameter, whatever it is called and whichever
+helper the calls sit in.) `buildV1SCT` signs with `signer` and computes the log id from `signer.Public()`, and `GetCTLogID` is
 SHA-256 of `x509.MarshalPKIXPublicKey` of that key: the model's single `cfg.k` with `logID = H (spkiOf (pub k))` and
 `signature = sign k …` is what the code does. -/
-theorem one_key : Gen.sctSigner = "signer" ∧ Gen.sctLogIDOf = "signer.Public()" ∧
+theorem one_key : Gen.sctSigner = "$crypto.Signer" ∧ Gen.sctLogIDOf = "$crypto.Signer.Public()" ∧
     Gen.logIDBytes = "x509.MarshalPKIXPublicKey(pk)" ∧ Gen.logIDOf = "pubBytes" ∧
-    ("Signature", "tls.SignatureAlgorithmFromPubKey(signer.Public())") ∈ Gen.sctFields ∧ ("Hash", "tls.SHA256") ∈ Gen.sctFields := by
+    ("Signature", "tls.SignatureAlgorithmFromPubKey($crypto.Signer.Public())") ∈ Gen.sctFields ∧ ("Hash", "tls.SHA256") ∈ Gen.sctFields := by
   decide
 
 /-- The clock conversion (regenerated `uint64(UnixNano() / millisPerNano)`): for a clock at or after the epoch the
